@@ -22,7 +22,11 @@ def run(chk, replay=None):
     else:
         tour, st1 = vf.tlc_gen("IqDispatchGen.tla", "IqDispatchGenTour.cfg" if quick else "IqDispatchGenTourIds.cfg")
         allp, st2 = vf.tlc_gen("IqDispatchGen.tla", "IqDispatchGenAll.cfg")
-        sim, st3 = vf.tlc_simulate("IqDispatchGen.tla", "IqDispatchGenTourIds.cfg", num=300 if quick else 6000, depth=10,
+        if not quick:
+            allp5, st25 = vf.tlc_gen("IqDispatchGen.tla", "IqDispatchGenAll5.cfg")
+            allp += allp5
+            st2 = {"depth3": st2, "depth4": st25}
+        sim, st3 = vf.tlc_simulate("IqDispatchGen.tla", "IqDispatchGenTourIds.cfg", num=300 if quick else 20000, depth=12,
                                    seed=chk.seed, workers=2)
         behs = vf.maximal_behaviours(tour + allp + sim)
         chk.cov["generation"] = {"tour": st1, "all_paths": st2, "simulate": st3}
@@ -43,12 +47,13 @@ def run(chk, replay=None):
     chk.cov["iq_responses"] = s["responses"]
     chk.cov["iq_other_type"] = s["othertype"]
     chk.cov["streams_closed_by_client"] = s["closed"]
+    chk.cov["iq_property_failures"] = s["nviol"]
     chk.cov["diverged_executions"] = s["ndiv"]
     chk.cov["first_divergences"] = s["divs"][:3]
     chk.cov["exhaustive"] = True
     chk.cov["rule"] = ("behaviours = every Recv(type, payload kind, sender class[, id kind]) of IqDispatch for the extension sets "
                        "none / default / every bundled manager (both registration orders) as one-step executions on a fresh "
-                       "client (transition tour) + all sequences up to depth 3 over a reduced vocabulary + seeded random "
+                       "client (transition tour) + all sequences up to depth 3 (thorough: also depth 4) over reduced vocabularies + seeded random "
                        "sequences; each IQ is built from the library's own IQ classes or literal XML, injected into a real "
                        "QXmppClient, and the IQ result/error stanzas with the same id addressed to the sender are counted "
                        "after the event loop is drained; each recorded execution is validated by IqDispatchTrace.tla")
